@@ -204,8 +204,8 @@ type corruptCtx struct {
 
 type corruption struct {
 	Name    string
-	Actions []string                                            // applicable actions
-	Typed   func(c *corruptCtx, s *txSpec) bool                 // modifies the spec before encoding
+	Actions []string                                           // applicable actions
+	Typed   func(c *corruptCtx, s *txSpec) bool                // modifies the spec before encoding
 	Bytes   func(c *corruptCtx, s *txSpec, data []byte) []byte // modifies the encoded bytes (nil = not applicable)
 }
 
@@ -344,7 +344,10 @@ func catalogue() []corruption {
 			s.NewValset.Powers[i] = bump(c.r, s.NewValset.Powers[i])
 			return true
 		}},
-		{Name: "new-valset-id", Actions: []string{actValset}, Typed: func(c *corruptCtx, s *txSpec) bool { s.NewValset.ValsetId = bump(c.r, s.NewValset.ValsetId); return true }},
+		{Name: "new-valset-id", Actions: []string{actValset}, Typed: func(c *corruptCtx, s *txSpec) bool {
+			s.NewValset.ValsetId = bump(c.r, s.NewValset.ValsetId)
+			return true
+		}},
 		{Name: "new-valset-shape", Actions: []string{actValset}, Typed: func(c *corruptCtx, s *txSpec) bool {
 			n := len(s.NewValset.Validators)
 			if n < 2 {
@@ -393,7 +396,10 @@ func catalogue() []corruption {
 			s.Cons.Valset.Powers[i] = bump(c.r, s.Cons.Valset.Powers[i])
 			return true
 		}},
-		{Name: "consensus-valset-id", Actions: ccActions, Typed: func(c *corruptCtx, s *txSpec) bool { s.Cons.Valset.ValsetId = bump(c.r, s.Cons.Valset.ValsetId); return true }},
+		{Name: "consensus-valset-id", Actions: ccActions, Typed: func(c *corruptCtx, s *txSpec) bool {
+			s.Cons.Valset.ValsetId = bump(c.r, s.Cons.Valset.ValsetId)
+			return true
+		}},
 		{Name: "consensus-other-snapshot", Actions: ccActions, Typed: func(c *corruptCtx, s *txSpec) bool {
 			if c.otherVS == nil {
 				return false
